@@ -95,8 +95,6 @@ def allKinds : List String → Option (List Kind)
     | some k, some r => some (k :: r)
     | _, _ => none
 
-/-- size of `TupleHeader` (version byte + padding, xmin, xmax) -/
-def tupleHeaderSize : Nat := 24
 
 /-- `key` op: a search tuple and a stored cell of an index with the given key kinds and one BigUInt value column,
     laid out as `TupleBuilder` does (header, one bitmap byte, keys, value), compared by `compareKeys`. -/
@@ -104,7 +102,7 @@ def keyOp (D : Defects) (ks : List Kind) (tv cv : List Value) : String :=
   if ks.length = 0 ∨ tv.length ≠ ks.length ∨ cv.length ≠ ks.length then "bad-op"
   else if (tv.map Value.kind) ≠ ks ∨ (cv.map Value.kind) ≠ ks then "err build"
   else
-    let cur := tupleHeaderSize + 1
+    let cur := stdParams.keysOffset1
     let pre : Bytes := List.replicate cur 0
     let tbuf := pre ++ layoutKeys cur tv ++ List.replicate 16 0
     let cbuf := pre ++ layoutKeys cur cv ++ List.replicate 16 0
@@ -119,6 +117,38 @@ def keyOp (D : Defects) (ks : List Kind) (tv cv : List Value) : String :=
     match r2 with
     | some r2 => if show_ r2 = show_ r1 then show_ r1 else s!"MODEDIFF tuple={show_ r1} bare={show_ r2}"
     | none => show_ r1
+
+def strLt (a b : String) : Ordering := if a < b then .lt else if a = b then .eq else .gt
+
+def sortStrings (xs : List String) : List String := sortByCmp strLt xs
+
+def indexed {α : Type} (xs : List α) : List (Nat × α) := (List.range xs.length).zip xs
+
+/-- `sql` op: one table `t (x INT, v KIND)` holding the given values (row number in `x`), and a second table with
+    `v` as PRIMARY KEY receiving the non-NULL ones in the same order. -/
+def sqlOp (D : Defects) (vs : List Value) : String :=
+  let showL (xs : List String) : String := "[" ++ joinWith "," xs ++ "]"
+  let asc := sortByCmp (orderAsc D) vs
+  let desc := sortByCmp (orderDesc D) vs
+  let groups := groupCount D vs
+  let distinct := sortStrings (groups.map fun (v, _) => showValue v)
+  let group := sortStrings (groups.map fun (v, n) => s!"{showValue v}:{n}")
+  let nonNull := vs.filter (fun v => v.cls != 0)
+  let rows := indexed vs
+  match nonNull with
+  | [] => s!"order={showL (asc.map showValue)} desc={showL (desc.map showValue)} distinct={showL distinct} group={showL group}"
+  | p :: rest =>
+    let q := rest.headD p
+    -- WHERE: a NULL operand makes the predicate false
+    let sel (f : Value → Bool) : List String := (rows.filter fun (_, v) => v.cls != 0 && f v).map fun (i, _) => toString i
+    let inL := sel fun v => eq D v p || eq D v q
+    let eqL := sel fun v => eq D v p
+    let ltL := sel fun v => partialCmp D v p == some .lt
+    let geL := sel fun v => partialCmp D v p == some .gt || partialCmp D v p == some .eq
+    -- PRIMARY KEY: an insert is refused when an equal key is already there
+    let pk := ((nonNull.take 6).foldl (fun (acc : List Value × List String) v =>
+        if acc.1.any (fun w => eq D w v) then (acc.1, acc.2 ++ ["d"]) else (acc.1 ++ [v], acc.2 ++ ["o"])) ([], [])).2
+    s!"order={showL (asc.map showValue)} desc={showL (desc.map showValue)} distinct={showL distinct} group={showL group} in={showL inL} eq={showL eqL} lt={showL ltL} ge={showL geL} pk={showL pk}"
 
 def step (D : Defects) (line : String) : String :=
   match words line with
@@ -219,6 +249,12 @@ def step (D : Defects) (line : String) : String :=
     match allKinds (ks.splitOn ","), allValues (tv.splitOn ","), allValues (cv.splitOn ",") with
     | some ks, some tv, some cv => keyOp D ks tv cv
     | _, _, _ => "bad-op"
+  | ["sql", k, vs] =>
+    match kind? k, allValues (vs.splitOn ",") with
+    | some k, some vs =>
+      if k == .null ∨ vs.length = 0 ∨ vs.length > 40 ∨ vs.any (fun v => v.cls != 0 && v.kind != k) then "bad-op"
+      else sqlOp D vs
+    | _, _ => "bad-op"
   | "laws" :: ws => match allValues ws with
     | some vs => if vs.length = 0 ∨ vs.length > 4 then "bad-op" else laws D vs
     | none => "bad-op"
